@@ -209,8 +209,8 @@ def volume (d : VDom K) (ρ : Env K) : Except VErr (K × Bool) := volAux false d
 
 end closedForms
 
-/-! ### partial evaluation `D(**σ)` — as coded: flags are kept (after the repair), user volumes of the
-    evaluated nodes are NOT carried over to the new objects -/
+/-! ### partial evaluation `D(**σ)` — as coded after the repairs: the disjoint / contained declarations are kept
+    and a user volume is handed on, partially evaluated, to the new object (`Domain._evaluate_user_volume`) -/
 
 def VDom.peval {K} (σ : Env K) : VDom K → VDom K
   | .interval v lb ub => .interval v (lb.peval σ) (ub.peval σ)
@@ -228,9 +228,10 @@ def VDom.peval {K} (σ : Env K) : VDom K → VDom K
   | .bdry d => .bdry (d.peval σ)
   | .bdryL d => .bdryL (d.peval σ)
   | .bdryR d => .bdryR (d.peval σ)
-  | .userVol d _ => d.peval σ
+  | .userVol d f => .userVol (d.peval σ) (f.peval σ)
 
-/-- the pinned snapshot: `UnionDomain.__call__` / `CutDomain.__call__` forget the declarations -/
+/-- the pinned snapshot: `UnionDomain.__call__` / `CutDomain.__call__` forget the declarations, and every
+    `__call__` forgets a user volume -/
 def VDom.pevalOld {K} (σ : Env K) : VDom K → VDom K
   | .union _ a b => .union false (a.pevalOld σ) (b.pevalOld σ)
   | .cut _ a b => .cut false (a.pevalOld σ) (b.pevalOld σ)
